@@ -79,6 +79,10 @@ MUTANTS = [
     ("C17-tab-width", "C17", "context.py", '.count("\\t") * 3', '.count("\\t") * 4', 1),
     ("C17-span-mixed", "C17", "insns.py", "(operand.ctx_start, operand.ctx_end, \"...but this value does not look like a register\")", "(operand.ctx_start, insn.ctx_end, \"...but this value does not look like a register\")", 1),
     ("C17-line-number", "C17", "context.py", 'line_no = self.code[:self.pos].count("\\n")', 'line_no = self.code[:self.pos + 1].count("\\n")', 1),
+    ("C13-default-name-case", "C13", "metacommands.py", "        write_path = state[\"filename\"]\n        if write_path.lower().endswith(\".mac\"):\n            write_path = write_path[:-4]\n        if file_extension", "        write_path = state[\"filename\"]\n        if write_path.endswith(\".mac\"):\n            write_path = write_path[:-4]\n        if file_extension", 1),
+    ("C13-tape-name-padding", "C13", "metacommands.py", "encoded_bk_filename = encoded_bk_filename.ljust(16, b\" \")", "encoded_bk_filename = encoded_bk_filename.ljust(16, b\"\\0\")", 1),
+    ("C13-tape-name-from-path", "C13", "metacommands.py", "        if bk_filename.lower().endswith(\".wav\"):\n            bk_filename = bk_filename[:-4]", "        if bk_filename.lower().endswith(\".wav\"):\n            bk_filename = bk_filename[:-3]", 1),
+    ("C13-raw-gets-extension", "C13", "metacommands.py", "add_emitted_file(state, raw_file_path, \"raw\", None)", "add_emitted_file(state, raw_file_path, \"raw\", \"raw\")", 1),
     # negative controls: semantically neutral edits, every check must stay green
     ("NEG-rename-local", "C06", "metacommand_impl.py", "    value = wait(arg_token.resolve(state))\n\n    if not isinstance(value, int):", "    value = wait(arg_token.resolve(state))\n    _unused = 1\n\n    if not isinstance(value, int):", 0),
     ("NEG-candidate-order", "C03", "types.py", "            state[\"local_symbol_prefix\"] + self.name,\n            state[\"internal_symbol_prefix\"] + self.name\n", "            state[\"internal_symbol_prefix\"] + self.name,\n            state[\"local_symbol_prefix\"] + self.name\n", 0),
